@@ -86,9 +86,37 @@ class _BuildLock:
         self.f.close()
 
 
+def _child_unlimited() -> None:
+    """children (lake, lean, leanchecker, endriver) are not subject to the address-space cap of the harness process"""
+    import resource
+    soft, hard = resource.getrlimit(resource.RLIMIT_AS)
+    resource.setrlimit(resource.RLIMIT_AS, (hard, hard))
+
+
+def cap_address_space() -> None:
+    """Decoders fed with hostile bytes (pickle above all) may ask for tens of gigabytes in one allocation; with memory
+    overcommit that 'works' and costs minutes of page faults (measured: 32 GB resident, 6 min, for one mutated pickle).
+    A soft cap on the address space of the harness process makes such a request fail at once with MemoryError, which the
+    code under test must (and does) turn into a parse error.  VERIF_AS_LIMIT_GB=0 disables the cap."""
+    import resource
+    try:
+        gb = float(os.environ.get("VERIF_AS_LIMIT_GB", "12"))
+    except ValueError:
+        gb = 12.0
+    if gb <= 0:
+        return
+    soft, hard = resource.getrlimit(resource.RLIMIT_AS)
+    want = int(gb * (1 << 30))
+    if hard != resource.RLIM_INFINITY:
+        want = min(want, hard)
+    if soft == resource.RLIM_INFINITY or soft > want:
+        resource.setrlimit(resource.RLIMIT_AS, (want, hard))
+
+
 def _run(cmd: list[str], cwd: Path, timeout: int = 1800, input: str | None = None) -> tuple[int, str]:
     try:
-        p = subprocess.run(cmd, cwd=cwd, capture_output=True, text=True, timeout=timeout, input=input)
+        p = subprocess.run(cmd, cwd=cwd, capture_output=True, text=True, timeout=timeout, input=input,
+                           preexec_fn=_child_unlimited)
     except subprocess.TimeoutExpired as e:
         raise InfraError(f"timeout: {' '.join(cmd)}") from e
     return p.returncode, (p.stdout or "") + (p.stderr or "")
@@ -461,6 +489,7 @@ def _check(mod, prop_id: str, tier: str, seed: int, t0: float) -> int:
     discharged = sum(1 for n in names if axioms.get(n) is not None and set(axioms[n]) <= ALLOWED_AXIOMS) if ok_build and not hits else 0
 
     # ---- C + D. correspondence and oracle
+    cap_address_space()
     stats = Stats()
     cases: list[dict] = []
     if hasattr(mod, "corpus"):
